@@ -290,11 +290,12 @@ def c01(case):
         out.update(_exc(e))
         return out
     try:
-        pretty = d.pretty_desc()
+        popt = a.get("pretty_opts") or {}
+        pretty = d.pretty_desc(**popt)
         d2 = pytrs.PLSSDesc(pretty)
         out["pretty"] = plssdoc.project_tracts(d2.tracts, doc, ws_insensitive=True)
         out["pretty_text"] = pretty[:300]
-        out["plines"] = plssdoc.lex_pretty(pretty, doc)
+        out["plines"] = plssdoc.lex_pretty(pretty, doc, word_sec=popt.get("word_sec", "Sec "))
     except Exception as e:  # noqa
         out["pretty_exc"] = type(e).__name__
     return out
